@@ -13,6 +13,12 @@ Proof. intros H. unfold src_dedrift_offset, offset, nq. first [reflexivity | (f_
 Lemma k_dedrift_max_offset fr d : ~ df fr == 0 ->
   Z.to_nat (src_dedrift_max_offset d (Z.of_nat (T fr)) (dt fr) (df fr)) = max_offset fr d.
 Proof. intros H. unfold src_dedrift_max_offset, max_offset, offset, nq. first [reflexivity | (f_equal; same_rhe)]. Qed.
+(* the normalisation statement of integrate(): elementwise (x - m) / s *)
+Lemma k_normalise m s l i : (i < length l)%nat -> nth i (normalise m s l) 0 == src_normalise_elt (nth i l 0) m s.
+Proof.
+  intros Hi. unfold normalise, src_normalise_elt. rewrite (nth_indep _ 0 ((0 - m) / s)) by (rewrite map_length; exact Hi).
+  rewrite (map_nth (fun x => (x - m) / s) l 0 i). same_q.
+Qed.
 Theorem k17_all fr d i : ~ df fr == 0 ->
   Z.to_nat (src_dedrift_offset d (Z.of_nat i) (dt fr) (df fr)) = offset fr d i /\
   Z.to_nat (src_dedrift_max_offset d (Z.of_nat (T fr)) (dt fr) (df fr)) = max_offset fr d.
